@@ -659,5 +659,20 @@ pub fn structured_cases(thorough: bool) -> Vec<FileCase> {
             entries: e,
         });
     }
+    // D3. incompressible blocks of several MiB per codec (beyond any codec's internal window,
+    // chunk or staging size: 3 MiB, 5 MiB and a 2^22+1 value in one file)
+    if !cfg!(miri) {
+        for &codec in codecs().iter() {
+            let mut e = k2_fixed(&mut rng, 8, 2);
+            e[1].1 = rng.bytes(3 << 20);
+            e[4].1 = rng.bytes(5 << 20);
+            e[6].1 = rng.bytes((1 << 22) + 1);
+            out.push(FileCase {
+                label: format!("D3/multi-MiB-incompressible-values/{}", codec_name(codec)),
+                cfg: WCfg { codec, level: 0, block_size: None, interval: None, levels: Some(1) },
+                entries: e,
+            });
+        }
+    }
     out
 }
